@@ -570,6 +570,21 @@ impl World {
         out
     }
 
+    /// transport-level fault counters: how often the simulated TCP actually delivered short reads / writes
+    /// or made a writer wait
+    pub(crate) fn net_counters(&self) -> Vec<(&'static str, u64)> {
+        let mut t = (0u64, 0u64, 0u64, 0u64, 0u64);
+        for c in &self.conns {
+            let s = c.peer.stats();
+            t.0 += s.0;
+            t.1 += s.1;
+            t.2 += s.2;
+            t.3 += s.3;
+            t.4 += s.4;
+        }
+        vec![("net.reads", t.0), ("net.short_reads", t.1), ("net.writes", t.2), ("net.short_writes", t.3), ("net.writer_blocked", t.4)]
+    }
+
     pub(crate) fn conn_of_task(&self, id: tokio::task::Id) -> Option<usize> {
         self.conns.iter().position(|c| c.task_id == id)
     }
